@@ -276,6 +276,19 @@ fn structured_cases(ctx: &Ctx, scratch: &std::path::Path) -> Vec<Case> {
         t.push_str(&format!(".if a{}\nnop\n.endif\nldi r16, a{}\n", n, n));
         add(&format!("recursion/equ-doubling-in-if-and-instruction/{}", n), t);
     }
+    // a ladder that one evaluation just gets through, used on every line of a long source: the time is the sum
+    // over the lines, each within its own limit
+    for (uses, rungs, line) in [(200usize, 18usize, ".dd a18"), (2000, 18, ".dd a18"), (6000, 17, "\tldi r16, low(a17)"), (1500, 18, ".if a18\n.endif"), (3000, 17, ".set v = a17"), (2000, 17, "\trjmp pc + a17 - a17")] {
+        let mut t = String::from(".equ a0 = 1\n");
+        for i in 1..=rungs {
+            t.push_str(&format!(".equ a{} = a{} + a{}\n", i, i - 1, i - 1));
+        }
+        for _ in 0..uses {
+            t.push_str(line);
+            t.push('\n');
+        }
+        add(&format!("recursion/equ-doubling-used-often/{}x{}/{}", uses, rungs, line.split_whitespace().next().unwrap_or("?").trim_start_matches('.')), t);
+    }
     add("recursion/macro-arg-doubling", ".macro m\n.dq @0\n.endm\n.equ a0 = 1\n.equ a1 = a0+a0\n.equ a2 = a1+a1\n.equ a3 = a2+a2\nm a3+a3\n".into());
     add("recursion/equ-label-same-name", "a: .equ a = a\n.dw a\n".into());
     // a macro that calls itself (or the next one) with an argument that grows at every level: glued,
@@ -421,6 +434,12 @@ fn structured_cases(ctx: &Ctx, scratch: &std::path::Path) -> Vec<Case> {
     add("odd/include-empty-name", ".include \"\"\n".into());
     add("odd/include-directory", ".include \"/\"\n".into());
     add("odd/include-dev-null", ".include \"/dev/null\"\nnop\n".into());
+    // what a path names need not be a file with an end
+    add("odd/include-dev-zero", ".include \"/dev/zero\"\nnop\n".into());
+    add("odd/include-dev-full", ".include \"/dev/full\"\nnop\n".into());
+    add("odd/include-dev-urandom", ".include \"/dev/urandom\"\nnop\n".into());
+    add("odd/include-proc-self-mem", ".include \"/proc/self/mem\"\nnop\n".into());
+    add("odd/include-own-binary", ".include \"/proc/self/exe\"\nnop\n".into());
     add("odd/includepath-weird", ".includepath \"\"\n.includepath \"/\"\n.include \"nosuch\"\n".into());
     // build_file: a file including itself / a cycle of two
     let _ = std::fs::create_dir_all(scratch);
